@@ -16,7 +16,7 @@ func init() {
 		"C04": " (R09.1) blocking waits of the send path have a teardown case: a Send blocked on flow control returns when the handler has answered and closed the channel.",
 		"C06": " (R06.8) channel.release() runs only behind acquire() or a successful tryAcquire().",
 		"C07": " (R07.9) the window update never waits for the lock of the sender.",
-		"C11": " (R02.2) parsing recursion descends on every frame: a hostile frame cannot overflow the stack of the process; (R10.1) the integer decoders used for protocol versions and frame codes reject out-of-range values instead of wrapping.",
+		"C11": " (R02.2) parsing recursion descends on every frame (a frame cannot make the parser loop on the same bytes); (R10.1) the integer decoders used for protocol versions and frame codes reject out-of-range values instead of wrapping.",
 		"C16": " (R01.4) an early `absent` answer of the tag lookup implies an empty table; (R13.10) nested containers are opened on their own bytes.",
 		"C18": " (R18.6) a handle is detached from its pooled state (Swap(nil) or field = nil) where the state is released; (R03.8).",
 		"C19": " (R19.8, R19.9) retry and slot discipline of connect1; (R19.2d) the connection set is re-read under client.mu before Connected is cleared and before a dial starts.",
